@@ -158,7 +158,8 @@ static int cb_common(htp_tx_t *tx, int kind, const uint8_t *data, size_t len, in
         if (kind == CB_TX_COMPLETE) {
             o->steady_n_total++;
             if (o->nsteady < 16) o->steady[o->nsteady++] = hx_live_bytes;
-            else if (hx_live_bytes != o->steady[15] && !o->steady_growth_at) o->steady_growth_at = o->steady_n_total;
+            /* exact equality from the 4th transaction on: the allocator is deterministic, a slack would hide slow leaks */
+            if (o->steady_n_total > 4 && hx_live_bytes != o->steady[3] && !o->steady_growth_at) o->steady_growth_at = o->steady_n_total;
             o->steady_last = hx_live_bytes;
         }
         hx_in_lib = sv;
